@@ -392,6 +392,15 @@ func c04Scan(c *Ctx) error {
 
 // ---------------------------------------------------------------- group "csig"
 
+// c04CancelPeriod: CreateSignature looks at its context once every 129 blocks (a counter that is
+// reset when it exceeds 128); a signature must not depend on where those resets fall.
+const c04CancelPeriod = 129
+
+// block counts of the csig/long class and of the build/period class: on and around one, two and
+// three periods, and around 128 / 256 (the neighbouring off-by-one choices of such a counter)
+var c04LongCounts = []int{c04CancelPeriod, c04CancelPeriod - 1, 2 * c04CancelPeriod, c04CancelPeriod + 1, c04CancelPeriod - 2,
+	2*c04CancelPeriod - 1, 3 * c04CancelPeriod, 2*c04CancelPeriod + 1, 255, 256, 3*c04CancelPeriod - 1, 3*c04CancelPeriod + 1}
+
 func c04Csig(c *Ctx) error {
 	r := c.Rng.Fork()
 	n := c04N(c, 120, 1600, 800)
@@ -401,6 +410,22 @@ func c04Csig(c *Ctx) error {
 		var data []byte
 		class := "csig/small"
 		switch {
+		case i%8 == 3: // many blocks: block counts on and around the multiples of the period (129 blocks)
+			// at which CreateSignature polls for cancellation, and around powers of two
+			bs = cr.Range(1, 3)
+			nb := c04LongCounts[(i/8+int(c.Seed))%len(c04LongCounts)]
+			if i/8 >= len(c04LongCounts) && cr.Bool() {
+				nb = cr.Range(100, 2*c04CancelPeriod+2)
+			}
+			total = nb * bs
+			if bs > 1 && cr.Bool() { // the last of the nb blocks is short
+				total -= cr.Range(1, bs-1)
+			}
+			data = make([]byte, total)
+			for j := range data {
+				data[j] = byte(cr.Intn(3))
+			}
+			class = "csig/long"
 		case i%8 == 7: // medium blocks, byte values that overflow the 16-bit halves of the weak hash
 			bs = []int{255, 256, 257, 1000, 4096}[cr.Intn(5)]
 			total = []int{0, 1, bs - 1, bs, bs + 1, 2*bs - 1, 2 * bs, 2*bs + 1, 3*bs + 7}[cr.Intn(9)]
@@ -449,6 +474,19 @@ func c04Csig(c *Ctx) error {
 			}
 		} else {
 			sizes = c04SmallChunking(cr, total, bs)
+		}
+		if class == "csig/long" { // keep the case term small: at most 64 chunks, adjacent ones merged
+			for len(sizes) > 64 {
+				var m []int
+				for j := 0; j < len(sizes); j += 2 {
+					if j+1 < len(sizes) {
+						m = append(m, sizes[j]+sizes[j+1])
+					} else {
+						m = append(m, sizes[j])
+					}
+				}
+				sizes = m
+			}
 		}
 		eofWithLast := cr.Bool()
 		fileIndex := int64(cr.Intn(6))
@@ -729,6 +767,12 @@ func c04GenBuild(r *lib.Rng, i int, thorough bool, off int) (*lib.Build, string,
 		if r.Bool() {
 			b.Put(lib.Entry{Path: "data/link-to-empty", Kind: "link", Dest: "empty"})
 		}
+		// destinations that are legal but not in lexically clean form, absolute, looping, odd bytes:
+		// a symlink's destination is an opaque string that signing and validation must carry as is
+		for k, at := r.Range(2, 5), r.Intn(len(c04LinkDests)); k > 0; k-- {
+			d := c04LinkDests[(at+k)%len(c04LinkDests)]
+			b.Put(lib.Entry{Path: []string{"", "nested/", "bin/"}[r.Intn(3)] + "ln-" + d.name, Kind: "link", Dest: d.dest})
+		}
 		return b, "build/links", true
 	case 5: // no file at all
 		if r.Bool() {
@@ -737,6 +781,19 @@ func c04GenBuild(r *lib.Rng, i int, thorough bool, off int) (*lib.Build, string,
 		}
 		return b, "build/nofiles", true
 	case 6: // a larger file (several pipe slices per block, many blocks), arbitrary contents
+		if (i/10+off)%5 == 2 {
+			// one of five of these builds (one per quick run) has a file whose block count is on or
+			// next to a multiple of the 129 blocks after which CreateSignature polls its context
+			// (> 8 MiB: oracle only); a small file follows so that a surplus or missing hash shifts it
+			nb := c04LongCounts[r.Intn(4)]
+			if thorough {
+				nb = c04LongCounts[r.Intn(8)]
+			}
+			s := (nb-1)*bs64 + []int{1, bs64, bs64 - 1, c04K16, r.Range(1, bs64)}[r.Intn(5)]
+			put("big.bin", structuredContent(r, s))
+			put("small.txt", r.Bytes(r.Range(0, 50)))
+			return b, "build/period", false
+		}
 		s := r.Range(4, 20)*bs64 + []int{-1, 0, 1, 777, c04K16, c04K16 + 1}[r.Intn(6)]
 		if thorough && r.Chance(1, 4) {
 			s = 4<<20 + r.Range(-2, 70000)
@@ -781,6 +838,47 @@ var c04Corpus = []func(r *lib.Rng) *lib.Build{
 		b.Put(lib.Entry{Path: "only", Kind: "file"})
 		return b
 	},
+	// exactly one cancellation-poll period of blocks (128 full ones and a 1-byte tail), then a small file
+	func(r *lib.Rng) *lib.Build {
+		b := &lib.Build{}
+		b.Put(lib.Entry{Path: "big.bin", Kind: "file", Data: structuredContent(r, (c04CancelPeriod-1)*bs64+1)})
+		b.Put(lib.Entry{Path: "small.txt", Kind: "file", Data: []byte("hello")})
+		return b
+	},
+	// every symlink destination form of c04LinkDests at once
+	func(r *lib.Rng) *lib.Build {
+		b := &lib.Build{}
+		b.Put(lib.Entry{Path: "bin/tool", Kind: "file", Data: structuredContent(r, 100)})
+		b.Put(lib.Entry{Path: "emptydir", Kind: "dir"})
+		b.Put(lib.Entry{Path: "nested/deeper", Kind: "dir"})
+		for k, d := range c04LinkDests {
+			b.Put(lib.Entry{Path: []string{"", "nested/", "bin/"}[k%3] + "ln-" + d.name, Kind: "link", Dest: d.dest})
+		}
+		return b
+	},
+}
+
+// c04LinkDests: symlink destinations beyond the plain relative path.  None of them is followed by
+// signing or validation; each must be stored, read back and compared as the string readlink returns.
+var c04LinkDests = []struct{ name, dest string }{
+	{"dotslash", "./bin/tool"},
+	{"updown", "bin/../bin/tool"},
+	{"dslash", "bin//tool"},
+	{"innerdot", "bin/./tool"},
+	{"trailing", "emptydir/"},
+	{"dot", "."},
+	{"dotdot", ".."},
+	{"updown-trailing", "nested/../"},
+	{"up-out", "../../outside/of/the/build"},
+	{"abs", "/nonexistent/c04/target"},
+	{"abs-unclean", "/nonexistent//c04/../x/"},
+	{"root", "/"},
+	{"self", "ln-self"},
+	{"spaces", " bin/tool with spaces "},
+	{"backslash", "bin\\tool"},
+	{"utf8", "bin/t\u00f6\u00f6l-\u65e5\u672c"},
+	{"long", strings.Repeat("d/../", 60) + "bin/tool"},
+	{"plain", "bin/tool"},
 }
 
 // c04StandaloneStream writes a signature file the way the stand-alone signer does: header,
